@@ -235,7 +235,9 @@ func runCheck(repo, prop, tier string, opt Options, verbose bool) int {
 	known := loadKnown()
 	isKnown := func(fn, ob string) *KnownFinding {
 		for i := range known {
-			if known[i].Property == prop && known[i].Function == fn && known[i].Obligation == ob && known[i].Status == "known" {
+			// a finding is identified by its obligation; it is the same finding in every check whose property includes the
+			// obligation (C15's comment clauses are also obligations of C06 and C01, DESIGN 4 "property includes")
+			if known[i].Function == fn && known[i].Obligation == ob && known[i].Status == "known" {
 				return &known[i]
 			}
 		}
